@@ -3,10 +3,10 @@
 proof:   Properties/C19.v over Model/Redfish.v (one shell-loop pass = `pass`, a command = `run_line`) and
          Spec/RedfishSpec.v (the documented rules, top-down per target); Gen/GenRfp.v (gen/gen_rfp.py) carries the
          command / status words, every stdout format string and the F17/F20 repair flags of the CURRENT source.
-         Proved (Proofs/Redfish*.v): single-target lines at any depth = RedfishSpec.expected for every release
-         schedule (+ the property-text corollaries), ancestor+descendant `on` refusal for any number of targets,
-         the error reports, F17 / F20 answers; OPEN: the refinement for several related targets on one line --
-         that case is decided by nothing but this correspondence + monitor (see props/C19.json).
+         Proved (Proofs/Redfish*.v): ANY number of targets on a line at any depth = RedfishSpec.expected (lines as
+         a multiset, status plug by plug) for every release schedule (C19_rules; + the single-target form and the
+         property-text corollaries), ancestor+descendant `on` refusal, the error reports, F17 / F20 answers
+         (see props/C19.json).
 tie:     R-RFP   the real `redfishpower --test-mode` of the scratch copy (harness/rfp_drv.py, ASan+UBSan build,
          one process per session, one line at a time) vs the extracted model (driver/rfp_drv.ml), per command:
          multiset of stdout lines, prompt returned, process alive; the model is run under two release schedules
